@@ -9,14 +9,20 @@ package nebula
 
 import (
 	"log/slog"
+	"net/netip"
 
 	"github.com/rcrowley/go-metrics"
+	"github.com/slackhq/nebula/firewall"
+	"github.com/slackhq/nebula/iputil"
 )
 
 // packages whose types are named by contracts
 var (
 	_ *slog.Logger
 	_ metrics.Counter
+	_ netip.Addr
+	_ firewall.Packet
+	_ = iputil.SpecIsExt
 )
 
 // ---- contract vocabulary (evaluated symbolically by govc) ----
@@ -204,3 +210,169 @@ func specInCirc(q, start, count, length uint64) bool {
 //@   callghost clearRange q = k & b.lengthMask
 //@   callghost set q = k & b.lengthMask
 //@   loop 1 invariant true
+
+// =====================================================================
+// C20 — packet classification matches an independent parser
+// =====================================================================
+//
+//@ load ./iputil
+//
+// specParseV4 / specParseV6 are written from RFC 791 / RFC 8200 (the IPv6
+// chain walk is iputil.SpecIPv6Find), not from the code: what an independent
+// parser reports for the byte string d, oriented for the direction.
+
+type specPkt struct {
+	ok      bool
+	local   netip.Addr
+	remote  netip.Addr
+	lport   uint16
+	rport   uint16
+	proto   uint8
+	frag    bool
+	fragAny bool
+	hdrLen  int
+}
+
+//@ func specParseV4
+//@   pure
+//@ func specParseV6
+//@   pure
+//@ func specParse
+//@   pure
+//@ func specOrient
+//@   pure
+//@ func specMatches
+//@   pure
+//@ func specBE16
+//@   pure
+
+func specBE16(d []byte, i int) uint16 { return uint16(d[i])<<8 | uint16(d[i+1]) }
+
+// specOrient: local/remote from source/destination for the direction.
+func specOrient(p specPkt, src, dst netip.Addr, sport, dport uint16, incoming bool) specPkt {
+	if incoming {
+		p.remote, p.local, p.rport, p.lport = src, dst, sport, dport
+	} else {
+		p.local, p.remote, p.lport, p.rport = src, dst, sport, dport
+	}
+	return p
+}
+
+func specParseV4(d []byte, incoming bool) specPkt {
+	if len(d) < 20 {
+		return specPkt{}
+	}
+	ihl := int(d[0]&0x0f) * 4
+	if ihl < 20 {
+		return specPkt{}
+	}
+	ff := specBE16(d, 6)
+	p := specPkt{ok: true, proto: d[9], hdrLen: ihl}
+	p.frag = ff&0x1fff != 0    // fragment offset != 0: not the first fragment
+	p.fragAny = ff&0x3fff != 0 // more-fragments flag or an offset
+	src := netip.AddrFrom4([4]byte{d[12], d[13], d[14], d[15]})
+	dst := netip.AddrFrom4([4]byte{d[16], d[17], d[18], d[19]})
+	if p.frag {
+		if len(d) < ihl {
+			return specPkt{}
+		}
+		return specOrient(p, src, dst, 0, 0, incoming)
+	}
+	if p.proto == 1 { // ICMP: the identifier is the remote port, whatever the direction
+		if len(d) < ihl+6 {
+			return specPkt{}
+		}
+		p = specOrient(p, src, dst, 0, 0, incoming)
+		p.rport, p.lport = specBE16(d, ihl+4), 0
+		return p
+	}
+	if len(d) < ihl+4 {
+		return specPkt{}
+	}
+	return specOrient(p, src, dst, specBE16(d, ihl), specBE16(d, ihl+2), incoming)
+}
+
+func specAddr16(d []byte, i int) netip.Addr {
+	return netip.AddrFrom16([16]byte{d[i], d[i+1], d[i+2], d[i+3], d[i+4], d[i+5], d[i+6], d[i+7], d[i+8], d[i+9], d[i+10], d[i+11], d[i+12], d[i+13], d[i+14], d[i+15]})
+}
+
+//@ func specAddr16
+//@   pure
+
+func specParseV6(d []byte, incoming bool) specPkt {
+	if len(d) < 40 {
+		return specPkt{}
+	}
+	w := iputil.SpecIPv6Find(d)
+	if !w.Ok {
+		return specPkt{}
+	}
+	p := specPkt{ok: true, proto: w.Proto, hdrLen: w.Off, frag: w.Frag, fragAny: w.Any}
+	src, dst := specAddr16(d, 8), specAddr16(d, 24)
+	off := w.Off
+	if w.Frag {
+		return specOrient(p, src, dst, 0, 0, incoming)
+	}
+	switch w.Proto {
+	case 58: // ICMPv6: echo request/reply carry an identifier
+		if len(d) < off+4 {
+			return specPkt{}
+		}
+		p = specOrient(p, src, dst, 0, 0, incoming)
+		if d[off] == 128 || d[off] == 129 {
+			if len(d) < off+6 {
+				return specPkt{}
+			}
+			p.rport = specBE16(d, off+4)
+		}
+		return p
+	case 6, 17:
+		if len(d) < off+4 {
+			return specPkt{}
+		}
+		return specOrient(p, src, dst, specBE16(d, off), specBE16(d, off+2), incoming)
+	}
+	return specOrient(p, src, dst, 0, 0, incoming)
+}
+
+// specParse: dispatch on the IP version nibble.
+func specParse(d []byte, incoming bool) specPkt {
+	if len(d) < 1 {
+		return specPkt{}
+	}
+	switch d[0] >> 4 {
+	case 4:
+		return specParseV4(d, incoming)
+	case 6:
+		return specParseV6(d, incoming)
+	}
+	return specPkt{}
+}
+
+// specMatches: fp reports exactly what the independent parser found.
+func specMatches(fp *firewall.ParsedPacket, p specPkt) bool {
+	return fp.LocalAddr == p.local && fp.RemoteAddr == p.remote && fp.LocalPort == p.lport && fp.RemotePort == p.rport &&
+		fp.Protocol == p.proto && fp.Fragment == p.frag && fp.FragAny == p.fragAny && fp.IPHdrLen == p.hdrLen
+}
+
+//@ func parseV4
+//@   props C20
+//@   requires fp != nil
+//@   ensures[accept] (result == nil) == old(specParseV4(data, incoming)).ok
+//@   ensures[fields] implies(result == nil, specMatches(fp, old(specParseV4(data, incoming))))
+//@   assigns *fp
+
+//@ func parseV6
+//@   props C20
+//@   requires fp != nil
+//@   ensures[accept] (result == nil) == old(specParseV6(data, incoming)).ok
+//@   ensures[fields] implies(result == nil, specMatches(fp, old(specParseV6(data, incoming))))
+//@   assigns *fp
+
+//@ func newPacket
+//@   props C20
+//@   requires fp != nil
+//@   ensures[accept] (result == nil) == old(specParse(data, incoming)).ok
+//@   ensures[fields] implies(result == nil, specMatches(fp, old(specParse(data, incoming))))
+//@   ensures[reset]  implies(result != nil && (len(data) < 1 || (data[0]>>4 != 4 && data[0]>>4 != 6)), fp.IPHdrLen == 0 && !fp.FragAny)
+//@   assigns *fp
